@@ -152,12 +152,15 @@ class C05Scenario(ChangeScenario):
         current: dict[tuple[str, str], dict] = {}     # (op, uid) -> the event being processed (from the probe)
         sights: dict[tuple[str, str], int] = {}       # (op, uid) -> how many events of the object this process has processed
         first_type: dict[tuple[str, str], Any] = {}
+        first_cycle_over: set[tuple[str, str]] = set()
         clean = not self.carveouts(env) and not env.time_while_pending
         for t, k, p in env.obs:
             if k == 'call' and p['id'] == 'ev':
                 current[(p['op'], p['uid'])] = p
                 sights[(p['op'], p['uid'])] = sights.get((p['op'], p['uid']), 0) + 1
                 first_type.setdefault((p['op'], p['uid']), p.get('etype'))
+                if sights[(p['op'], p['uid'])] > 1 and not any_progress_keys(p['raw']):
+                    first_cycle_over.add((p['op'], p['uid']))     # the cycle that began at first sight has been closed (or had nothing to do)
                 continue
             if k != 'call' or p.get('reason') not in ('create', 'update', 'delete', 'resume'):
                 continue
@@ -188,6 +191,9 @@ class C05Scenario(ChangeScenario):
                 if first_type.get(key) is not None:
                     out.append(self.viol(env, 'resume-not-first-sight', f"t={t}: resume handler {hid} invoked for an object this process first saw "
                                                                         f"through the watch ({first_type[key]}), not in its initial listing", clause='first-sight', how='watch'))
+                elif key in first_cycle_over and clean:
+                    out.append(self.viol(env, 'resume-not-first-sight', f"t={t}: resume handler {hid} invoked (reason={reason}) on event #{sights[key]} of the object in this "
+                                                                        f"process, after the handling that began at its first sight was over", clause='first-sight', how='later-cycle'))
                 elif sights.get(key, 0) > 1 and not any_progress_keys(eraw) and clean:
                     out.append(self.viol(env, 'resume-not-first-sight', f"t={t}: resume handler {hid} invoked (reason={reason}) on event #{sights[key]} of the object "
                                                                         f"in this process although no handling was in progress: not the first sight", clause='first-sight', how='later-event'))
@@ -260,6 +266,10 @@ def build(history: list[tuple[str, ...]], bare: bool, spacing: float, preexistin
                 dict(id='c1', on='create', script=['ok']), dict(id='u1', on='update', script=['temp', 'ok']),
                 dict(id='d1', on='delete', script=['temp', 'ok']), dict(id='r1', on='resume', script=['ok']),
                 dict(id='r2', on='resume', script=['ok'], deleted=True), dict(id='r3', on='resume', script=['ok'], deleted=False)]
+    if kw.pop('filtered_resume_only', False):
+        # the only resume handler is filtered by a label the object does not carry when the process first sees it
+        handlers = [h for h in handlers if h['on'] != 'resume'] + [dict(id='r4', on='resume', script=['ok'], labels={'l': 'v'})]
+        kw['filtered_resume_only'] = True
     t = 1.0
     user: list[tuple] = [(t, 'createbare' if bare else 'create', 'a')] if not preexisting else []
     if preexisting:     # created while no operator was running: found by the initial listing, never handled before
@@ -277,6 +287,8 @@ def run(tier: str, seed: int) -> CheckResult:
     hist = [build(h, bare, sp, pre, delays=False, early_user=False, time_dev=False)
             for bare in (True, False) for pre in (False, True) for h in histories(depth if not pre else depth - 1, bare)
             for sp in ((6.0,) if tier == 'quick' else (6.0, 0.0))]
+    hist += [build(h, bare, 6.0, False, filtered_resume_only=True, delays=False, early_user=False, time_dev=False)
+             for bare in (True, False) for h in histories(depth, bare) if ('restart',) in h and ('label', 'a', 'l', 'v') in h]
     timing = [build(h, bare, 2.0, pre, kills=True) for bare in (True, False) for pre in (False, True) for h in histories(1 if tier == 'quick' else 2, bare)]
     if tier == 'quick':
         groups = [('histories', hist, 0, 60.0), ('timing+kills', timing, 1, 40.0)]
